@@ -1598,6 +1598,17 @@ pub mod cs {
     Multiget { ks: Vec<u64>, asy: bool },
     Enumerate { api: IterApi },
     FetchWith { k: u64, asy: bool },
+    /// `inner` (a read of `hk`) is invoked on a second thread while this thread holds the write
+    /// lock of hk's shard through a live `entry(hk)`; the clock moves by `ns` while the reader
+    /// waits, then the lock is released. The read of `hk` can only happen after the release,
+    /// i.e. at the advanced time: model = Advance(ns); inner.
+    LockWait { hk: u64, ns: u64, inner: Box<Op> },
+  }
+
+  #[derive(Clone, Debug)]
+  enum Pre {
+    Val(Option<u64>),
+    Map(BTreeMap<u64, u64>),
   }
 
   impl Op {
@@ -1616,6 +1627,7 @@ pub mod cs {
         Op::Multiget { asy, .. } => comp("multiget", *asy),
         Op::Enumerate { api } => api.comp().to_string(),
         Op::FetchWith { asy, .. } => comp("fetch_with", *asy),
+        Op::LockWait { inner, .. } => inner.name(),
       }
     }
   }
@@ -1642,6 +1654,8 @@ pub mod cs {
     last_mutator: String,
     loads_seen: usize,
     aborted: bool,
+    /// result of an operation that was already executed (behind a lock, on another thread)
+    pre: Option<Pre>,
   }
 
   const DURS: [u64; 12] =
@@ -1738,9 +1752,55 @@ pub mod cs {
       self.out.findings.push(Finding { prop: "C12", comp: comp.into(), rule: rule.into(), variant: variant.into(), at, detail });
     }
 
+    fn gen_advance_ns(&self, rng: &mut Rng) -> u64 {
+      // interesting instants: deadlines, idle deadlines, ends of grace windows
+      let mut inst: Vec<u64> = Vec::new();
+      for e in self.m.ents.values() {
+        if let Some(x) = e.exp {
+          inst.push(x);
+          if let Some(gr) = self.m.grace {
+            inst.push(x.saturating_add(gr));
+          }
+        }
+        if let Some(d) = self.m.tti {
+          inst.push(e.la_lo.saturating_add(d));
+          inst.push(e.la_hi.saturating_add(d));
+        }
+      }
+      inst.retain(|x| *x >= self.now && *x < self.now + (1 << 50));
+      if !inst.is_empty() && rng.chance(3, 4) {
+        let d = *rng.pick(&inst);
+        let target = match rng.below(4) {
+          0 => d.saturating_sub(1),
+          1 | 2 => d,
+          _ => d + 1,
+        };
+        if target > self.now {
+          return target - self.now;
+        }
+        return 1;
+      }
+      *rng.pick(&[1u64, 1, 10, 1_000, 1_000_000, 100_000_000, 1_000_000_000, 10_000_000_000])
+    
+    }
+
     fn gen_op(&self, rng: &mut Rng, g: &Gen12) -> Op {
       let k = *rng.pick(&g.keys);
       let asy = rng.chance(1, 2);
+      if !self.m.ents.is_empty() && rng.chance(1, 24) {
+        // a read that has to wait for the shard lock while time passes
+        let with_deadline: Vec<u64> = self.m.ents.iter().filter(|(_, e)| e.exp.is_some() || self.m.tti.is_some()).map(|(k, _)| *k).collect();
+        let hk = if !with_deadline.is_empty() && rng.chance(4, 5) { *rng.pick(&with_deadline) } else { k };
+        let ns = self.gen_advance_ns(rng);
+        let inner = match rng.below(6) {
+          0 => Op::Get { k: hk, asy },
+          1 => Op::Fetch { k: hk, asy },
+          2 => Op::Peek { k: hk, asy },
+          3 => Op::EntryGet { k: hk, asy },
+          _ => Op::Multiget { ks: vec![hk], asy },
+        };
+        return Op::LockWait { hk, ns, inner: Box::new(inner) };
+      }
       match rng.weighted(&g.weights) {
         0 => Op::Insert { k, cost: rng.range(0, 3), asy },
         1 => {
@@ -1751,36 +1811,7 @@ pub mod cs {
           Op::InsertTtl { k, cost: 1, ttl: d, asy }
         }
         2 => Op::Remove { k, asy },
-        3 => {
-          // interesting instants: deadlines, idle deadlines, ends of grace windows
-          let mut inst: Vec<u64> = Vec::new();
-          for e in self.m.ents.values() {
-            if let Some(x) = e.exp {
-              inst.push(x);
-              if let Some(gr) = self.m.grace {
-                inst.push(x.saturating_add(gr));
-              }
-            }
-            if let Some(d) = self.m.tti {
-              inst.push(e.la_lo.saturating_add(d));
-              inst.push(e.la_hi.saturating_add(d));
-            }
-          }
-          inst.retain(|x| *x >= self.now && *x < self.now + (1 << 50));
-          if !inst.is_empty() && rng.chance(3, 4) {
-            let d = *rng.pick(&inst);
-            let target = match rng.below(4) {
-              0 => d.saturating_sub(1),
-              1 | 2 => d,
-              _ => d + 1,
-            };
-            if target > self.now {
-              return Op::Advance { ns: target - self.now };
-            }
-            return Op::Advance { ns: 1 };
-          }
-          Op::Advance { ns: *rng.pick(&[1u64, 1, 10, 1_000, 1_000_000, 100_000_000, 1_000_000_000, 10_000_000_000]) }
-        }
+        3 => Op::Advance { ns: self.gen_advance_ns(rng) },
         4 => Op::Maintain { asy },
         5 => Op::Audit,
         6 => Op::Get { k, asy },
@@ -2174,11 +2205,45 @@ pub mod cs {
       }
     }
 
+    fn note_crossings(&mut self, before: u64) {
+      // evidence: which deadlines were crossed / hit exactly
+      let mut inst: Vec<u64> = Vec::new();
+      for e in self.m.ents.values() {
+        if let Some(x) = e.exp {
+          inst.push(x);
+          if let Some(g) = self.m.grace {
+            inst.push(x.saturating_add(g));
+          }
+        }
+        if let Some(d) = self.m.tti {
+          inst.push(e.la_hi.saturating_add(d));
+        }
+      }
+      for x in inst {
+        if x > before && x <= self.now {
+          self.out.c("crossings/deadlines_crossed", 1);
+        }
+        if x == self.now && x > before {
+          self.out.c("crossings/landed_exactly_on_deadline", 1);
+        }
+        if x == self.now + 1 {
+          self.out.c("crossings/landed_1ns_before_deadline", 1);
+        }
+        if x + 1 == self.now && x >= before {
+          self.out.c("crossings/landed_1ns_after_deadline", 1);
+        }
+      }
+    
+    }
+
     fn step(&mut self, op: &Op, at: usize) {
       crate::seq::wd::beat();
       self.late_loads();
       let t = self.now;
-      self.out.c(&format!("ops/{}", op.name()), 1);
+      match op {
+        Op::LockWait { .. } => self.out.c("ops/lock_wait", 1),
+        _ => self.out.c(&format!("ops/{}", op.name()), 1),
+      }
       match op {
         Op::Insert { k, cost, asy } => {
           let v = self.next_val;
@@ -2213,37 +2278,67 @@ pub mod cs {
           self.m.unknown.remove(k);
           self.last_mutator = op.name();
         }
+        Op::LockWait { hk, ns, inner } => {
+          // taking entry(hk) may purge hk when it is past its expiry (like Op::EntryGet)
+          if self.m.ents.get(hk).map_or(false, |e| !self.m.def_live(e, t)) {
+            self.m.ents.get_mut(hk).unwrap().sure = false;
+          }
+          let before = self.now;
+          let (pre, early, asleep, newnow) = {
+            let rig = &self.rig;
+            let hold = rig.s.entry(*hk);
+            let tid = std::sync::atomic::AtomicU64::new(0);
+            std::thread::scope(|sc| {
+              let h = sc.spawn(|| {
+                tid.store(vh_core::stuck::tid_of_current().unwrap_or(0), Ordering::SeqCst);
+                match &**inner {
+                  Op::Get { k, asy } => Pre::Val(rig.get(*k, *asy)),
+                  Op::Fetch { k, asy } => Pre::Val(rig.fetch(*k, *asy)),
+                  Op::Peek { k, asy } => Pre::Val(rig.peek(*k, *asy)),
+                  Op::EntryGet { k, asy } => Pre::Val(rig.entry_get(*k, *asy)),
+                  Op::Multiget { ks, asy } => Pre::Map(rig.multiget(ks, *asy)),
+                  other => panic!("LockWait cannot wrap {:?}", other),
+                }
+              });
+              let asleep = vh_core::stuck::wait_asleep(
+                || match tid.load(Ordering::SeqCst) {
+                  0 => None,
+                  x => Some(x),
+                },
+                || h.is_finished(),
+                2,
+                Duration::from_millis(if cfg!(miri) { 0 } else { 25 }),
+              );
+              // a reader that is already back did not need the lock (cannot happen while every
+              // read path takes the shard lock): its read happened at the old time
+              let early = h.is_finished();
+              let newnow = if early { before } else { advance(*ns) };
+              drop(hold);
+              let pre = h.join().expect("reader behind the lock panicked");
+              (pre, early, asleep, newnow)
+            })
+          };
+          self.out.c("lock_wait/scenarios", 1);
+          self.out.c(if asleep { "lock_wait/reader_seen_asleep_behind_the_lock" } else { "lock_wait/reader_not_seen_asleep" }, 1);
+          if early {
+            self.out.c("lock_wait/reader_returned_before_release", 1);
+            self.pre = Some(pre);
+            self.step(inner, at);
+            self.step(&Op::Advance { ns: *ns }, at);
+          } else {
+            self.now = newnow;
+            self.trace_push(format!("entry({}) held; reader invoked; clock +{} ns; released", hk, ns));
+            self.note_crossings(before);
+            self.pre = Some(pre);
+            self.step(inner, at);
+          }
+          self.pre = None;
+        }
         Op::Advance { ns } => {
           let before = self.now;
           self.now = advance(*ns);
           self.trace_push(format!("clock +{} ns", ns));
-          // evidence: which deadlines were crossed / hit exactly
-          let mut inst: Vec<u64> = Vec::new();
-          for e in self.m.ents.values() {
-            if let Some(x) = e.exp {
-              inst.push(x);
-              if let Some(g) = self.m.grace {
-                inst.push(x.saturating_add(g));
-              }
-            }
-            if let Some(d) = self.m.tti {
-              inst.push(e.la_hi.saturating_add(d));
-            }
-          }
-          for x in inst {
-            if x > before && x <= self.now {
-              self.out.c("crossings/deadlines_crossed", 1);
-            }
-            if x == self.now && x > before {
-              self.out.c("crossings/landed_exactly_on_deadline", 1);
-            }
-            if x == self.now + 1 {
-              self.out.c("crossings/landed_1ns_before_deadline", 1);
-            }
-            if x + 1 == self.now && x >= before {
-              self.out.c("crossings/landed_1ns_after_deadline", 1);
-            }
-          }
+          self.note_crossings(before);
         }
         Op::Maintain { asy } => {
           self.rig.maintain(*asy);
@@ -2265,22 +2360,34 @@ pub mod cs {
           self.audit(&blame, at);
         }
         Op::Get { k, asy } => {
-          let r = self.rig.get(*k, *asy);
+          let r = match self.pre.take() {
+            Some(Pre::Val(v)) => v,
+            _ => self.rig.get(*k, *asy),
+          };
           self.trace_push(format!("{}({}) -> {:?}", op.name(), k, r));
           self.check_read(&op.name(), *k, r, Rc::Refresh, at);
         }
         Op::Fetch { k, asy } => {
-          let r = self.rig.fetch(*k, *asy);
+          let r = match self.pre.take() {
+            Some(Pre::Val(v)) => v,
+            _ => self.rig.fetch(*k, *asy),
+          };
           self.trace_push(format!("{}({}) -> {:?}", op.name(), k, r));
           self.check_read(&op.name(), *k, r, Rc::Refresh, at);
         }
         Op::Peek { k, asy } => {
-          let r = self.rig.peek(*k, *asy);
+          let r = match self.pre.take() {
+            Some(Pre::Val(v)) => v,
+            _ => self.rig.peek(*k, *asy),
+          };
           self.trace_push(format!("{}({}) -> {:?}", op.name(), k, r));
           self.check_read(&op.name(), *k, r, Rc::NoRefresh, at);
         }
         Op::EntryGet { k, asy } => {
-          let r = self.rig.entry_get(*k, *asy);
+          let r = match self.pre.take() {
+            Some(Pre::Val(v)) => v,
+            _ => self.rig.entry_get(*k, *asy),
+          };
           // entry() holds the shard write lock and may purge an entry that is past its expiry
           // (like a maintenance pass): from here on the entry is no longer certainly present.
           if self.m.ents.get(k).map_or(false, |e| !self.m.def_live(e, t)) {
@@ -2309,7 +2416,10 @@ pub mod cs {
           }
         }
         Op::Multiget { ks, asy } => {
-          let r = self.rig.multiget(ks, *asy);
+          let r = match self.pre.take() {
+            Some(Pre::Map(m)) => m,
+            _ => self.rig.multiget(ks, *asy),
+          };
           self.trace_push(format!("{}({:?}) -> {:?}", op.name(), ks, r));
           for k in ks {
             self.check_read(&op.name(), *k, r.get(k).copied(), Rc::Refresh, at);
@@ -2376,6 +2486,7 @@ pub mod cs {
       last_mutator: "build".into(),
       loads_seen: 0,
       aborted: false,
+      pre: None,
     };
     let n = match &src {
       Source::Gen(_, g) => g.len,
@@ -2489,6 +2600,11 @@ pub mod cs {
     pub asy_restore: bool,
     /// inserts after the rebuild (key, cost)
     pub post: Vec<(u64, u64)>,
+    /// > 0: to_snapshot is invoked on a second thread while this thread holds one shard's write
+    /// lock through a live `entry(k)`; the clock moves by this much while it waits, then the
+    /// lock is released - the snapshot instant is the advanced time.
+    #[serde(default)]
+    pub lock_wait: u64,
   }
 
   #[derive(Clone, Debug, Serialize, Deserialize)]
@@ -2717,6 +2833,7 @@ pub mod cs {
       gap: if rng.chance(1, 3) { *rng.pick(&[1u64, 1_000_000_000, 30_000_000_000]) } else { 0 },
       asy_restore: rng.chance(1, 2),
       post,
+      lock_wait: if rng.chance(1, 4) { *rng.pick(&[1u64, 1_000_000, 700_000_000, 2_500_000_000, 15_000_000_000]) } else { 0 },
     }
   }
 
@@ -3038,6 +3155,43 @@ pub mod cs {
       out.inconclusive.push("original cache did not reach a maintenance fixpoint in 80 passes".into());
       return out;
     }
+    // ---- to_snapshot behind a held shard lock: taken first, judged below against the content at the advanced time
+    let mut early_snap: Option<CacheSnapshot<u64, u64>> = None;
+    if c.lock_wait > 0 && !all_keys.is_empty() {
+      let hk = *all_keys.iter().next().unwrap();
+      let before = now;
+      let (snap, early, asleep, newnow) = {
+        let rig = &orig;
+        let hold = rig.s.entry(hk);
+        let tid = std::sync::atomic::AtomicU64::new(0);
+        std::thread::scope(|sc| {
+          let h = sc.spawn(|| {
+            tid.store(vh_core::stuck::tid_of_current().unwrap_or(0), Ordering::SeqCst);
+            rig.snapshot(c.asy_snapshot)
+          });
+          let asleep = vh_core::stuck::wait_asleep(
+            || match tid.load(Ordering::SeqCst) {
+              0 => None,
+              x => Some(x),
+            },
+            || h.is_finished(),
+            2,
+            Duration::from_millis(if cfg!(miri) { 0 } else { 25 }),
+          );
+          let early = h.is_finished();
+          let newnow = if early { before } else { advance(c.lock_wait) };
+          drop(hold);
+          (h.join().expect("to_snapshot behind the lock panicked"), early, asleep, newnow)
+        })
+      };
+      now = newnow;
+      out.c("restore/lock_wait/scenarios", 1);
+      out.c(if asleep { "restore/lock_wait/snapshot_seen_asleep_behind_the_lock" } else { "restore/lock_wait/snapshot_not_seen_asleep" }, 1);
+      if early {
+        out.c("restore/lock_wait/snapshot_returned_before_release", 1);
+      }
+      early_snap = Some(snap);
+    }
     let t0 = now;
     // ---- ground truth: what the original cache holds live right now
     let mut g: BTreeMap<u64, Ent> = BTreeMap::new();
@@ -3065,7 +3219,10 @@ pub mod cs {
       out.o("C13/original-cache/over-capacity-at-quiescence");
     }
     // ---- snapshot, judged like any enumeration against the peek truth
-    let snap = orig.snapshot(c.asy_snapshot);
+    let snap = match early_snap {
+      Some(x) => x,
+      None => orig.snapshot(c.asy_snapshot),
+    };
     let sents = snapshot_entries(&snap);
     let comp_s = if c.asy_snapshot { "async.to_snapshot" } else { "to_snapshot" };
     // to_snapshot may flush pending policy events first (admission filter): the content right
